@@ -216,6 +216,8 @@ type c25Scn struct {
 	held    [c25K]uint64 // version whose payload the client holds (0 = nothing)
 	heldB   [c25K][]byte
 	maxV    [c25K]uint64 // highest version ever used for the key (publisher / backend side)
+	claimed [c25K]uint64 // version the client last claimed to have obtained elsewhere (0 = no such claim)
+	nClaim  int
 	epoch   string
 	nepoch  int
 	pending *c25Call
@@ -276,7 +278,7 @@ func (s *c25Scn) onPub(p *protocol.Publication) string {
 	var k int
 	_, _ = fmt.Sscanf(p.Key, "k%d", &k)
 	if p.Removed {
-		s.tracked[k], s.held[k], s.heldB[k] = false, 0, nil
+		s.tracked[k], s.held[k], s.heldB[k], s.claimed[k] = false, 0, nil, 0
 		s.jev = append(s.jev, fmt.Sprintf("    push removed k%d", k))
 		return vApp("PRemoved", vNat(k))
 	}
@@ -321,7 +323,11 @@ func (s *c25Scn) onPub(p *protocol.Publication) string {
 		s.held[k], s.heldB[k] = p.Version, want
 	} else {
 		s.held[k], s.heldB[k] = 0, nil
-		if s.finding == "" {
+		if s.keep || s.claimed[k] > 0 {
+			// not the known PrevData race (KeepLatestData off, no claimed version): a delta against a payload
+			// this node never delivered to the client
+			s.finding = "keyed-delta-base-not-delivered"
+		} else if s.finding == "" {
 			s.finding = "keyed-delta-backend-prevdata-stale-base"
 		}
 	}
@@ -358,7 +364,7 @@ func (s *c25Scn) drain() []string {
 				if rep.Push.Unsubscribe != nil {
 					s.sub = false
 					for k := range s.tracked {
-						s.tracked[k], s.held[k], s.heldB[k] = false, 0, nil
+						s.tracked[k], s.held[k], s.heldB[k], s.claimed[k] = false, 0, nil, 0
 					}
 					s.jev = append(s.jev, "    push unsubscribe")
 					out = append(out, "PUnsub")
@@ -485,7 +491,7 @@ func (s *c25Scn) doSubscribe() {
 	}
 	s.sub = true
 	for k := range s.tracked {
-		s.tracked[k], s.held[k], s.heldB[k] = false, 0, nil
+		s.tracked[k], s.held[k], s.heldB[k], s.claimed[k] = false, 0, nil, 0
 	}
 	s.act("ASubscribe", s.drain(), "subscribe")
 }
@@ -495,6 +501,7 @@ func (s *c25Scn) doTrack(k int, fresh bool) {
 		return
 	}
 	cv := s.held[k]
+	s.claimed[k] = 0
 	if fresh {
 		cv = 0
 		s.held[k], s.heldB[k] = 0, nil
@@ -516,14 +523,66 @@ func (s *c25Scn) doTrack(k int, fresh bool) {
 	s.settle()
 }
 
+// (re-)track with a version the client obtained elsewhere: ahead of, equal to or behind what this node
+// delivered to it. Its delta base stays what the node delivered.
+func (s *c25Scn) doTrackV(k int) {
+	if !s.sub {
+		return
+	}
+	var cv uint64
+	switch s.r.Intn(4) {
+	case 0: // behind
+		if s.held[k] > 1 {
+			cv = 1 + uint64(s.r.Intn(int(s.held[k]-1)))
+		} else {
+			cv = s.maxV[k] + 1
+		}
+	case 1: // equal to what was delivered
+		cv = s.held[k]
+		if cv == 0 {
+			cv = s.maxV[k] + 1
+		}
+	default: // ahead: the next version the publisher / backend will use, or one it already used
+		cv = s.maxV[k] + 1
+		if s.held[k] < s.maxV[k] && s.r.Intn(2) == 0 {
+			cv = s.maxV[k]
+		}
+	}
+	s.doTrackVWith(k, cv)
+}
+
+func (s *c25Scn) doTrackVWith(k int, cv uint64) {
+	if !s.sub {
+		return
+	}
+	res := s.subRefresh(&protocol.SubRefreshRequest{Channel: s.ch, Type: typeTrack,
+		Track: []*protocol.TrackBatch{{Items: []*protocol.KeyedItem{{Key: fmt.Sprintf("k%d", k), Version: cv}}}}})
+	if res == nil {
+		return
+	}
+	s.tracked[k] = true
+	s.claimed[k] = cv
+	s.nClaim++
+	s.jev = append(s.jev, fmt.Sprintf("track k%d claiming version %d obtained elsewhere (the node delivered v%d to it)", k, cv, s.held[k]))
+	var pushes []string
+	for _, p := range res.Items {
+		pushes = append(pushes, s.onPub(p))
+	}
+	pushes = append(pushes, s.drain()...)
+	s.script = append(s.script, vApp("ATrackV", vNat(k), vNat(int(cv))))
+	s.obs = append(s.obs, vList(pushes))
+	s.settle()
+}
+
 func (s *c25Scn) doUntrack(k int) {
 	if !s.sub || !s.tracked[k] {
 		return
 	}
+	s.claimed[k] = 0
 	if s.subRefresh(&protocol.SubRefreshRequest{Channel: s.ch, Type: typeUntrack, Untrack: []string{fmt.Sprintf("k%d", k)}}) == nil {
 		return
 	}
-	s.tracked[k], s.held[k], s.heldB[k] = false, 0, nil
+	s.tracked[k], s.held[k], s.heldB[k], s.claimed[k] = false, 0, nil, 0
 	s.act(vApp("AUntrack", vNat(k), "false"), s.drain(), fmt.Sprintf("untrack k%d", k))
 }
 
@@ -670,8 +729,10 @@ func (s *c25Scn) doPublishParked(k int) {
 			s.doUntrack(k)
 		case x < 50:
 			s.doRevoke(k)
-		case x < 70:
+		case x < 64:
 			s.doTrack(k, s.held[k] == 0 || s.r.Intn(2) == 0)
+		case x < 70:
+			s.doTrackV(k)
 		case x < 85:
 			s.doPublish(k, false)
 		case x < 92 && s.pending != nil:
@@ -884,6 +945,9 @@ func (s *c25Scn) finish() {
 	}
 	if s.pending == nil && s.late == nil && s.sub && s.bad == "" {
 		for k := range s.tracked {
+			if s.tracked[k] && s.claimed[k] >= s.maxV[k] && s.claimed[k] > s.held[k] {
+				continue // the client said it already has that version from elsewhere: nothing is owed to it
+			}
 			if s.tracked[k] {
 				s.final = append(s.final, vPair(vNat(k), vNat(int(s.maxV[k]))))
 				if s.held[k] != s.maxV[k] && s.finding == "" {
@@ -927,6 +991,9 @@ func (s *c25Scn) runForced(steps []string) {
 			s.act(vApp("APollResp", "0%nat", vNat(v), vBool(prev)), nil, fmt.Sprintf("backend answers k%d: version %d prev_data=%v (request had version %d)", call.key, v, prev, call.reqv))
 			s.act(vApp("ADeliver", "0%nat", "true"), pushes, "  (broadcast of the response)")
 			s.resume()
+		case len(st) > 5 && st[:5] == "claim":
+			_, _ = fmt.Sscanf(st, "claim%d", &v)
+			s.doTrackVWith(0, uint64(v))
 		case st == "none":
 			// the one backend call in flight ends without an item for its key (error / nothing newer)
 			if s.pending == nil {
@@ -973,10 +1040,19 @@ func TestVerifC25(t *testing.T) {
 		if i <= 1 {
 			json, keep = false, false
 		}
+		if i == 2 {
+			json, keep = false, true
+		}
 		s := c25NewScn(e, r, fmt.Sprintf("c25_%d", i), json, keep)
 		if i == 0 {
 			// corpus: SharedPollPublish while a backend call that will carry PrevData is in flight
 			s.runForced([]string{"sub", "track0", "resp5", "notify0", "pub6", "resp7p"})
+		} else if i == 2 {
+			// corpus: re-track of a tracked, delta-ready key claiming a version obtained elsewhere, ahead of
+			// what the node delivered; that version is then skipped for the client and the next one must
+			// come in full
+			s.runForced([]string{"sub", "track0", "resp1", "claim2", "pub2", "pub3"})
+			s.finish()
 		} else if i == 1 {
 			// corpus: a late joiner of a warm key whose one notified backend call is lost; only the
 			// periodic cycles can serve it, and only by asking from version 0
@@ -995,9 +1071,11 @@ func TestVerifC25(t *testing.T) {
 					s.doRespond(x < 3)
 				case x < 50 && !s.tracked[k]:
 					s.doTrack(k, s.held[k] == 0 || r.Intn(3) == 0)
-				case x < 55:
+				case x < 54:
 					s.doTrack(k, r.Intn(2) == 0) // re-track
-				case x < 62:
+				case x < 59:
+					s.doTrackV(k)
+				case x < 64:
 					s.doUntrack(k)
 				case x < 72:
 					s.doNotify(k)
@@ -1034,11 +1112,17 @@ func TestVerifC25(t *testing.T) {
 		if i == 1 {
 			class += "/corpus-late-joiner-notified-call-lost"
 		}
+		if i == 2 {
+			class += "/corpus-retrack-claimed-version"
+		}
 		if s.nPark > 0 {
 			class += "+held-broadcast"
 		}
 		if s.nTimer > 0 {
 			class += "+timer"
+		}
+		if s.nClaim > 0 {
+			class += "+claimed-version"
 		}
 		if s.bad != "" {
 			t.Errorf("case %d (%s): driver problem: %s", i, class, s.bad)
